@@ -362,3 +362,51 @@ void h_guard(void) {
   if (plain) VASSERT(got != NULL, "the plain #ifndef/#define/text.../#endif pattern is recognised");
   VCOVER();
 }
+
+// ---------------------------------------------------------------- (c) the `defined` operator in #if lines (C13 kernel)
+// The REAL read_const_expr() + copy_line() on one directive line of 0..4 tokens of symbolic kind over
+//   { defined  (  )  X  1 }   followed by the first token of the next line (at_bol) and EOF,
+// with cbmc's pointer checks ON: whatever the operand of `defined` looks like (missing at the end of the line, a
+// number, a parenthesis, unbalanced), the function either reports a located diagnostic or returns a list that ends in
+// EOF - it never walks past the end of the line (C13: no crash on `#if defined`).
+#ifndef DEF_N
+#define DEF_N 4
+#endif
+Token *stub_new_num_token(int val, Token *tmpl) {
+  Token *t = calloc(1, sizeof(Token)), *e = calloc(1, sizeof(Token));
+  t->kind = TK_PP_NUM; t->loc = val ? "1" : "0"; t->len = 1; t->file = &verif_file; t->val = verif_spell(t->loc);
+  e->kind = TK_EOF; e->loc = ""; e->file = &verif_file; e->at_bol = true;
+  t->next = e;
+  return t;
+}
+void h_defined(void) {
+  HAVOC_IN();
+  __CPROVER_assume(IN.n <= DEF_N && IN.defined[0] <= 1 && IN.defined[1] <= 1);
+  if (IN.defined[0]) hashmap_put(&macros, "X", &dummy_macro);
+  first_tok = last_tok = NULL;
+  for (int i = 0; i < DEF_N; i++) {
+    if (i >= IN.n) continue;
+    int k = IN.it[i].kind;
+    __CPROVER_assume(k < 5);
+    if (k == 0) mk(0, TK_IDENT, "defined", 7, false);
+    else if (k == 1) mk(0, TK_PUNCT, "(", 1, false);
+    else if (k == 2) mk(0, TK_PUNCT, ")", 1, false);
+    else if (k == 3) mk(0, TK_IDENT, "X", 1, false);
+    else mk(0, TK_PP_NUM, "1", 1, false);
+  }
+  Token *nextline = mk(1, TK_IDENT, "t1", 2, true);
+  mk(2, TK_EOF, "", 0, true);
+  Token *rest = NULL, *out = NULL;
+  expect_no_diag = 0;                          // diagnostics are a legal outcome here
+  TRY(out = read_const_expr(&rest, first_tok));
+  if (verif_diag) { VCOVER(); return; }
+  VASSERT(rest == nextline, "the cursor is left on the first token of the next line");
+  int steps = 0;
+  Token *t = out;
+  for (int i = 0; i < DEF_N + 1; i++) if (t && t->kind != TK_EOF) { t = t->next; steps++; }
+  VASSERT(t != NULL && t->kind == TK_EOF, "the rewritten line is a list of at most as many tokens as the line had, ending in EOF");
+  // `defined X` / `defined ( X )` became the number 1 or 0 according to the macro table
+  if (IN.n == 2 && IN.it[0].kind == 0 && IN.it[1].kind == 3)
+    VASSERT(out->kind == TK_PP_NUM && out->val == verif_spell(IN.defined[0] ? "1" : "0") && out->next->kind == TK_EOF, "`defined X` is 1 iff X is defined");
+  VCOVER();
+}
